@@ -421,24 +421,42 @@ def writer_partition(model, rep):
     if len(pm) != 1:
         raise AnalysisError("save(): mux index not found")
     PX = pm[0].targets[0].id
-    desc = [x for x in ast.walk(save) if isinstance(x, ast.Assign) and isinstance(x.targets[0], ast.Name) and ast.unparse(x.value).replace(" ", "") == "rx.descendants(self._g,%s)" % PX]
+    D_ = "rx.descendants(self._g,%s)" % PX
+    with_self = {t % {"D": D_, "P": PX} for t in (
+        "[%(P)s]+list(%(D)s)", "list(%(D)s)+[%(P)s]", "{%(P)s}|set(%(D)s)", "set(%(D)s)|{%(P)s}", "%(D)s|{%(P)s}", "{%(P)s}|%(D)s",
+        "set(%(D)s).union({%(P)s})", "{%(P)s}.union(%(D)s)", "[%(P)s,*%(D)s]", "{%(P)s,*%(D)s}", "[*%(D)s,%(P)s]", "{*%(D)s,%(P)s}")}
+    desc = [x for x in ast.walk(save) if isinstance(x, ast.Assign) and isinstance(x.targets[0], ast.Name) and D_ in ast.unparse(x.value).replace(" ", "")]
     if len(desc) != 1:
         raise AnalysisError("save(): descendants of the mux not computed")
+    dtext = ast.unparse(desc[0].value).replace(" ", "")
+    # the collection may hold the mux itself as well (one skip set): then membership alone is the test
+    incl_self = dtext in with_self
+    if dtext != D_ and not incl_self:
+        raise AnalysisError("save(): the components below the mux are collected as %s: not readable" % dtext[:70])
     DX = desc[0].targets[0].id
     par = getattr(desc[0], "_parent", None)
     if not (isinstance(par, ast.If) and ast.unparse(par.test).replace(" ", "") in ("%s!=-1" % PX, "-1!=%s" % PX)):
         ok = False
         rep.violation("R3", "system.System.save", "%s:%d" % (rel, desc[0].lineno), "the components below the mux are not collected exactly when a mux exists", "mux descendants guard")
     filt = [x for x in ast.walk(save) if isinstance(x, ast.If) and DX in {n.id for n in ast.walk(x.test) if isinstance(n, ast.Name)} and x is not par]
-    if len(filt) != 1:
+    cfilt = [g for x in ast.walk(save) if isinstance(x, (ast.ListComp, ast.DictComp, ast.SetComp, ast.GeneratorExp)) for g in x.generators
+             if any(DX in {n.id for n in ast.walk(c) if isinstance(n, ast.Name)} for c in g.ifs)]
+    if len(filt) + len(cfilt) != 1:
         raise AnalysisError("save(): the source-tree filter is not found once")
-    lp = getattr(filt[0], "_parent", None)
-    cv = lp.target.id if isinstance(lp, ast.For) and isinstance(lp.target, ast.Name) else None
+    if cfilt:
+        # the filter of a comprehension: `[record(c) for c in tree[e] if c not in DX]`
+        g = cfilt[0]
+        test = g.ifs[0] if len(g.ifs) == 1 else ast.BoolOp(op=ast.And(), values=list(g.ifs))
+        filt = [ast.copy_location(ast.If(test=test, body=[ast.Pass()], orelse=[]), g.ifs[0])]
+        cv = g.target.id if isinstance(g.target, ast.Name) else None
+    else:
+        lp = getattr(filt[0], "_parent", None)
+        cv = lp.target.id if isinstance(lp, ast.For) and isinstance(lp.target, ast.Name) else None
     from ..rules.c19 import cond_formula, equiv
     from ..summ import Sym
     env = {cv: Sym(("name", "C")), PX: Sym(("name", "PX")), DX: Sym(("name", "DX"))}
     got = cond_formula(filt[0].test, env)
-    want = cond_formula(ast.parse("C != PX and C not in DX", mode="eval").body, {"C": Sym(("name", "C")), "PX": Sym(("name", "PX")), "DX": Sym(("name", "DX"))})
+    want = cond_formula(ast.parse("C not in DX" if incl_self else "C != PX and C not in DX", mode="eval").body, {"C": Sym(("name", "C")), "PX": Sym(("name", "PX")), "DX": Sym(("name", "DX"))})
     if cv is None or not equiv(got, want):
         ok = False
         from ..guards import show_f
